@@ -26,7 +26,7 @@ HISTORY_TAGS = {
 
 PROPS = {
     "C07": {
-        "runs": [("C07", "std", "normal"), ("C07", "rel", "normal"), ("C07", "nostd", "normal")],
+        "runs": [("C07", "std", "normal"), ("C07", "rel", "normal"), ("C07", "nostd", "normal"), ("C07", "nostdrel", "normal")],
         "rule": "scanner histories include Default-constructed scanners (op 8). tag 70: every (channel, controller number) pair x boundary/seeded values (thorough: all 16384 values) through new/getters/to_short_messages for RawShortMessage and StructuredShortMessage; tag 71: seeded messages fed as encoded pairs after a seeded random prior history (any implementor kind). distinct = distinct input vectors; non-trivial = the observation contains a value other than None",
         "exhaustive": {"thorough": True},
         "assumptions": ["restricted integers are built through the checked public constructors",
@@ -117,7 +117,7 @@ PROPS.update({
         "assumptions": [],
     },
     "C06": {
-        "runs": [("C06", "std", "normal"), ("C06", "rel", "normal"), ("C06", "nostd", "normal")],
+        "runs": [("C06", "std", "normal"), ("C06", "rel", "normal"), ("C06", "nostd", "normal"), ("C06", "nostdrel", "normal")],
         "rule": "tag 60: the 19 named constructors for RawShortMessage and StructuredShortMessage (quick: full sweep per argument with the others on boundaries; thorough: every argument tuple), all 16384 14-bit values x channels (quick: stride 11), all 128 quarter-frame bytes; tag 61: 23 types x 3 generic constructors x channels x boundary data; tag 62: test_util shorthands with in- and out-of-range primitives",
         "exhaustive": {"thorough": True},
         "assumptions": [],
@@ -126,13 +126,13 @@ PROPS.update({
 
 PROPS.update({
     "C04": {
-        "runs": [("C04", "std", "normal"), ("C04", "rel", "normal"), ("C04", "nostd", "normal")],
+        "runs": [("C04", "std", "normal"), ("C04", "rel", "normal"), ("C04", "nostd", "normal"), ("C04", "nostdrel", "normal")],
         "rule": "two builds of the harness: default features (+serde) and --no-default-features. tag 40: every conversion impl of the regenerated table (harness dispatch generated from it) on every value of 8/16-bit and newtype sources, and on boundaries, 2^k +-1, type min/max and seeded random values of 32/64/128-bit and pointer-sized sources; only in-range/failed/panicked is observed; tag 41: T::new on every value of the representation type, in both configurations; tag 42: all strings over {0,1,2,5,9,+,-,space,a} up to length 4 (thorough 5) plus boundary and leading-zero numerals; tag 43: MIN/MAX/Default; tags 62-64: the test_util scalar helpers on every value of their argument type and the test_util shorthands with in- and out-of-range primitives (checked constructors too). The conversion table is what rustc sees (autoref probes over the 18x18 grid of numeric types), not a list parsed from the source",
         "exhaustive": {},
         "assumptions": ["usize/isize are 64-bit"],
     },
     "C05": {
-        "runs": [("C05", "std", "normal"), ("C05", "rel", "normal"), ("C05", "nostd", "normal")],
+        "runs": [("C05", "std", "normal"), ("C05", "rel", "normal"), ("C05", "nostd", "normal"), ("C05", "nostdrel", "normal")],
         "rule": "tag 50: same conversion inputs as C04 with exact result values; tag 42: parsing alphabet as C04; tag 51: Display of every value of every type (formatted into a stack buffer) and parse-back; tag 52: equality/ordering/hash-equality for all pairs of the <=7-bit types and boundaries+neighbours+seeded pairs for U14; tag 43: MIN/MAX/Default",
         "exhaustive": {},
         "assumptions": ["usize/isize are 64-bit"],
@@ -141,7 +141,7 @@ PROPS.update({
 
 PROPS.update({
     "C19": {
-        "runs": [("C19", "std", "normal"), ("C19", "rel", "normal")],
+        "runs": [("C19", "std", "normal"), ("C19", "rel", "normal"), ("C19", "nostdserde", "normal")],
         "rule": "harness built with features serde + serde_repr; inputs are serde_json::Value trees fed through serde_json::from_value. tag 190: every integer of -300..17000 (thorough -70000..70000) plus boundaries for each restricted integer type; all u8-ish values for ShortMessageType; names/forms for TimeCodeType and DataType; for every composite type the product of boundary values per field x {map, map with unknown key, sequence, missing field, short sequence, long sequence, wrong-typed field}, unknown variants, unit/newtype/struct variant forms, wrong JSON types; after a successful deserialization the panicking accessors (type(), lsb_controller_number(), to_short_messages()) are called. tag 191: serialize -> deserialize round trip of valid values of every type",
         "exhaustive": {},
         "assumptions": ["serde, serde_derive, serde_repr, serde_json are trusted (modelled in Model/Serde.v, tied by the correspondence)"],
@@ -173,7 +173,7 @@ PROPS.update({
     },
 })
 
-HOOK_COMMITS = ["8ffd056"]
+HOOK_COMMITS = ["8ffd056", "ffdf5e8"]
 FIX_COMMITS = ["f23ae2b", "0a7a8ec", "6f3a6a3", "7110a3c", "3bb8a42", "efa1406"]
 NOT_YET = {}
 
